@@ -201,6 +201,16 @@ class QuickPartitioner(BasePass):
                         extended = [q for q in location if q not in bin.qudits]
                         bin.blocked_qudits.update(extended)
 
+                # A bin that comes before this barrier on some qudit, directly
+                # or through a bin it is blocked by, cannot later grow onto the
+                # barrier's qudits: it would have to go before and after it.
+                for active_bin in active_bins:
+                    if active_bin is None:
+                        continue
+                    related = active_bin.blocked_qudits.union(active_bin.qudits)
+                    if len(related.intersection(location)) != 0:
+                        active_bin.blocked_qudits.update(location)
+
                 # Track the barrier to restore it in partitioned circuit
                 pending_bins.append(BarrierBin(point, location, circuit))
                 continue
